@@ -90,7 +90,7 @@ RESULTS2 = {
 RESULTS3 = {
  "C01-r3-1": ("C01", "after a yield point before every statement of pkg/conn and internal/bytecounter, simulation-aware locks and keep-alives during play were added (a response lands between the two writes of a frame)"),
  "C01-r3-2": ("C01", "after readers that set up only part of the medias were added"),
- "C01-r3-3": ("", "MISSED: needs a reader that sends PLAY again while it is playing and a handler that refuses it; the library's client cannot (PLAY is only sent from the pre-play state) and no check has a raw TCP reader whose media is followed after a refused request"),
+ "C01-r3-3": ("C02", "C02 after the refused re-PLAY scenario was added (the application refuses a PLAY that arrives while the session plays over TCP; the interleaved frames must keep coming); the library's own client cannot send such a PLAY"),
  "C02-r3-1": ("C02", ""),
  "C02-r3-2": ("C02", "after SETUP requests without a unicast / multicast token were added; server panic"),
  "C02-r3-3": ("C01", "same slip as C01-r3-1 (frame header and payload in two writes); caught by C01, C02's raw peers do not keep media flowing while they send requests"),
